@@ -163,6 +163,16 @@ def _operand_key(o):
     return (a.shape, a.dtype.str, a.tobytes())
 
 
+def treedef_key(td):
+    """Structural key of a treedef: node types (and dict keys) only, no aux data identity."""
+    nd = td.node_data()
+    if nd is None:
+        return "*" if td.num_leaves == 1 else "none"
+    typ, aux = nd
+    extra = tuple(aux) if typ is dict else ()
+    return (getattr(typ, "__name__", str(typ)), extra, tuple(treedef_key(c) for c in td.children()))
+
+
 def _memo_key(name, prm, ops):
     """Opaque calls are deterministic functions of their arguments: same arguments, same symbols."""
     st = prm.get("static")
@@ -175,7 +185,7 @@ def _memo_key(name, prm, ops):
             for i, l in enumerate(info["leaves"])
             if i not in info["arr_idx"]
         )
-        skey = (info["contract"].name, str(info["treedef"]), statics)
+        skey = (info["contract"].name, treedef_key(info["treedef"]), statics)
     else:
         try:
             hash(st)
